@@ -26,6 +26,7 @@ representation*/
 #include "encoder.h"
 #include "instr_parser.h"
 #include "instructions.h"
+#include "prefix.h"
 #include "reg_parser.h"
 #include "tokenizer.h"
 #include <ctype.h>
@@ -84,8 +85,12 @@ static int line_to_instr(struct instr *instr_data, char *filtered_asm_str) {
       instr_data->opd[m_index].str[0] == '\0' &&
       instr_data->opd[m_index].sib[0] == '\0') {
     instr_data->mod_disp &= MOD16;
-    instr_data->opd[m_index].reg = spl;
+    instr_data->opd[m_index].reg = reg64 | spl;
   }
+  // [index*scale] without a base register: settle the base before the
+  // operand registers are used to derive operand and immediate sizes
+  if (instr_data->opd[m_index].type == 'm')
+    sib_no_base(instr_data, &instr_data->opd[m_index]);
   // convert instruction string to enum representation
   instr_data->key = str_to_instr_key(instr_data->instruction, opd_format);
   FAIL_IF_VAR(instr_data->key == INSTR_ERROR,
